@@ -722,6 +722,12 @@ async fn run_ops_inner(p: Arc<Prog>, objs: Arc<Vec<Obj>>, b: usize, kind: Kind) 
                         (true, 0)
                     }
                     AOp::Sw(v) => (true, at.swap(v, o)),
+                    // the deprecated compare_and_swap is the same operation with another result type
+                    #[allow(deprecated)]
+                    AOp::Cas(c, n) if a % 3 == 2 => {
+                        let v = at.compare_and_swap(c, n, o);
+                        (v == c, v)
+                    }
                     AOp::Cas(c, n) => match at.compare_exchange(c, n, o, lo) {
                         Ok(v) => (true, v),
                         Err(v) => (false, v),
@@ -871,7 +877,12 @@ async fn run_ops_inner(p: Arc<Prog>, objs: Arc<Vec<Obj>>, b: usize, kind: Kind) 
             }
             Op::Abort(h) => {
                 let jh = ahandles.get(h).and_then(|x| x.as_ref()).expect("vharness: bad async handle");
-                jh.abort();
+                // both ways of aborting are the same operation: odd task ids go through an AbortHandle
+                if atids[h] % 2 == 1 {
+                    jh.abort_handle().abort();
+                } else {
+                    jh.abort();
+                }
                 log_op(33, &[atids[h] as u64]);
             }
             Op::Detach(h) => {
@@ -1490,6 +1501,16 @@ pub fn run_with_persistence(words: &[&str], persist: &str, dir: &str) -> String 
         return "ERR bad case".to_string();
     };
     let Some(mut config) = parse_config(ms) else { return "ERR bad max_steps".to_string() };
+    // <persistence>[+e][+d]: e = immediately_return_on_panic, d = ContinuationFunctionBehavior::Drop
+    let mut pit = persist.split('+');
+    let persist = pit.next().unwrap_or("");
+    for flag in pit {
+        match flag {
+            "e" => config.ungraceful_shutdown_config.immediately_return_on_panic = true,
+            "d" => config.ungraceful_shutdown_config.continuation_function_behavior = shuttle_engine::ContinuationFunctionBehavior::Drop,
+            _ => return "ERR bad persistence flag".to_string(),
+        }
+    }
     config.failure_persistence = match persist {
         "none" => FailurePersistence::None,
         "print" => FailurePersistence::Print,
@@ -1533,6 +1554,87 @@ pub fn run_with_persistence(words: &[&str], persist: &str, dir: &str) -> String 
             format!("T={} payload={} S={}", classify(Box::new(msg)), class, text)
         }
     }
+}
+
+
+fn payload_class(p: &Box<dyn std::any::Any + Send>) -> String {
+    let msg = if let Some(s) = p.downcast_ref::<String>() {
+        s.clone()
+    } else if let Some(s) = p.downcast_ref::<&str>() {
+        s.to_string()
+    } else {
+        "<non-string>".to_string()
+    };
+    if msg == "vpanic" {
+        "vpanic".to_string()
+    } else if msg.starts_with("deadlock!") {
+        "deadlock".to_string()
+    } else if msg.starts_with("exceeded max_steps bound") {
+        "max_steps".to_string()
+    } else {
+        format!("other:{}", msg.chars().filter(|c| !c.is_whitespace()).take(60).collect::<String>())
+    }
+}
+
+fn member(spec: &str) -> Option<Box<dyn Scheduler + Send + 'static>> {
+    let f: Vec<&str> = spec.split('.').collect();
+    let n = |i: usize| f.get(i).and_then(|x| x.parse::<u64>().ok());
+    Some(match f[0] {
+        "dfs" => Box::new(shuttle_schedulers::DfsScheduler::new(Some(n(1)? as usize), false)),
+        "rr" => Box::new(shuttle_schedulers::RoundRobinScheduler::new(n(1)? as usize)),
+        "random" => Box::new(shuttle_schedulers::RandomScheduler::new_from_seed(n(1)?, n(2)? as usize)),
+        "urw" => Box::new(shuttle_schedulers::UrwRandomScheduler::new_from_seed(n(1)?, n(2)? as usize)),
+        "pct" => Box::new(shuttle_schedulers::PctScheduler::new_from_seed(n(1)?, n(2)? as usize, n(3)? as usize)),
+        _ => return None,
+    })
+}
+
+/// portfolio <stop 0|1> <member,member,...> <ms> <objs> <bodies>: every member alone under a Runner, then all of them in
+/// a PortfolioRunner; prints the payload class of each (ok = passed).
+pub fn run_portfolio(words: &[&str]) -> String {
+    let [_, stop, members, ms, objs, bodies] = words else {
+        return "ERR bad case".to_string();
+    };
+    let Some(mut config) = parse_config(ms) else { return "ERR bad max_steps".to_string() };
+    config.failure_persistence = FailurePersistence::None;
+    let prog = parse_prog(objs, bodies);
+    let specs: Vec<&str> = members.split(',').collect();
+    let mut alone = Vec::new();
+    for sp in specs.iter() {
+        let Some(m) = member(sp) else { return "ERR bad member".to_string() };
+        let (p2, cfg) = (prog.clone(), config.clone());
+        // on its own thread, as in the portfolio
+        let r = std::thread::spawn(move || {
+            catch_unwind(AssertUnwindSafe(|| {
+                Runner::new(m, cfg).run(move || {
+                    let objs = start_exec(&p2);
+                    run_body(p2.clone(), objs, 0);
+                })
+            }))
+        })
+        .join();
+        alone.push(match r {
+            Ok(Ok(_)) => "ok".to_string(),
+            Ok(Err(p)) => payload_class(&p),
+            Err(_) => "thread-died".to_string(),
+        });
+    }
+    let mut pf = shuttle_engine::PortfolioRunner::new(*stop == "1", config);
+    for sp in specs.iter() {
+        pf.add(member(sp).unwrap());
+    }
+    let p2 = prog.clone();
+    let r = catch_unwind(AssertUnwindSafe(|| {
+        pf.run(move || {
+            let objs = start_exec(&p2);
+            run_body(p2.clone(), objs, 0);
+        })
+    }));
+    let pr = match r {
+        Ok(()) => "ok".to_string(),
+        Err(p) => payload_class(&p),
+    };
+    format!("P={} M={}", pr, alone.join(","))
 }
 
 /// replaytext <text> <ms> <objs> <bodies>: runs the program under ReplayScheduler::new_from_encoded(text)
@@ -1776,6 +1878,9 @@ pub fn run(words: &[&str]) -> String {
     }
     if words.first() == Some(&"replaytext") {
         return run_replaytext(words);
+    }
+    if words.first() == Some(&"portfolio") {
+        return run_portfolio(words);
     }
     if words.first() == Some(&"progdfs") {
         return run_dfs(words);
